@@ -9,7 +9,8 @@ left rotation with clearing it under the converse, both starting at the slot's o
 offset; the byte offset is popcount(bitmap & ((1 << i) - 1)) * 113 + (i - that) * 1 in both;
 the bitmap setters touch exactly bit i; the account is resized by +-112 exactly when a tick
 flips initialisation and rent follows the position's 0 <-> non-0 liquidity; fixed and
-dynamic arrays share the range / usability checks.
+dynamic arrays share the range / usability checks; each side's rent / size update is
+executed on that side's account and every caller passes (lower, upper, lower, upper).
 Not decided: equality of answers over update sequences; well-formedness over histories."""
 from analysis import cfg, atoms as A, preach, layout as L, writes
 from analysis.ir import callee_path, AnchorMissing
@@ -216,7 +217,9 @@ def R3_byte_offset(run):
         run.touch(fn)
         for val in (True, False):
             pv = prov_of(fn, {"initialized": val}, cut=True)
-            l = pv.var_by_name("tick_bitmap")
+            # the bitmap being edited: the one re-assigned local (whatever it is called)
+            multi = [l_ for l_ in range(fn.argc + 1, len(fn.locals)) if fn.locals[l_].get("n") and len([d for d in pv.defs.get(l_, []) if d[2] is None]) > 1]
+            l = multi[0] if len(multi) == 1 else None
             defs = [strip(t) for (_, _, t) in pv.var_defs(l)] if l else []
             upd = [t for t in defs if t[0] == "bin"]
             ok = len(upd) == 1
